@@ -418,8 +418,10 @@ def run(ctx, lean_ok):
 
             def cb(o, d50=d50, dm=dm, k=k, al=al, case=case, dp_v=dp_v, q_req=q_req):
                 corr('Model.Psf.sintef vs psf.sintef', [o[0], o[2] if o[1] == 1 else -1.0, o[3], o[4]], [d50, dm if dm is not None else -1.0, k, al], case)
-                if q_req > 0 and o[5] > 350.:
-                    case['_res'] = (o[5], o[6], dp_v)
+                if q_req > 0 and o[5] > 350. and dp_v > 0:
+                    # the oracle is what fsolve returned: check that it IS a root of the modified-Weber-number equation
+                    resid = dp_v - 24.8 * (o[5] / (1. + 0.08 * o[6] * dp_v ** (1. / 3.))) ** (-3. / 5.)
+                    ctx.count('sintef_d50 fsolve root residual %s' % ('<= 1e-6 dp' if abs(resid) <= 1e-6 * dp_v else '> 1e-6 dp (solver contract not met)'))
             ask(req('Psf.sintef', grace_v, dp_v, d0, mgv, p['rho_gas'], mov, p['rho_oil'], mu_p, sg, p['rho'], p['mu'], fp, 1 if use95 else 0), cb)
         elif which == 1:
             mu_p, sg = (p['mu_gas'], p['sigma_gas']) if fp == 0 else (p['mu_oil'], p['sigma_oil'])
